@@ -137,8 +137,10 @@ class Corr:
         self.distinct = set()
         self.model_errors = []
 
-    def add(self, slice_, line, impl_out, tol=Tol(), desc=None, nontrivial=True):
-        self.items.append((slice_, line, impl_out, tol, desc))
+    def add(self, slice_, line, impl_out, tol=Tol(), desc=None, nontrivial=True, post=None):
+        """`post`: optional function applied to the model's output line before the comparison (e.g. to plug a vector
+        constructed by the model into the implementation's own system and report the residual)"""
+        self.items.append((slice_, line, impl_out, tol, desc, post))
         self.by_slice[slice_] += 1
         if nontrivial:
             self.distinct.add(hashlib.sha1((slice_ + line).encode()).hexdigest())
@@ -155,7 +157,12 @@ class Corr:
             self.model_errors.append(str(e)[:3000])
             return
         seen = Counter()
-        for (slice_, line, impl_out, tol, desc), mo in zip(self.items, outs):
+        for (slice_, line, impl_out, tol, desc, post), mo in zip(self.items, outs):
+            if post is not None:
+                try:
+                    mo = post(mo)
+                except Exception as e:  # noqa
+                    mo = "ERR post:" + type(e).__name__ + ":" + str(e)[:200]
             why = compare_lines(impl_out, mo, tol)
             if why is not None:
                 self.disagreements.append({"slice": slice_, "why": why, "desc": desc,
